@@ -562,6 +562,17 @@ class Engine:
         return ok
 
 
+def _lagging_beyond_window(eng):
+    import re
+    m = re.search(r'ChainError: no undo information found for height ([\d,]+)', eng.server_exc[1])
+    srv = getattr(eng, 'srv', None)
+    if not m or srv is None:
+        return False
+    h = int(m.group(1).replace(',', ''))
+    cached = srv.adv_log.get(h)
+    return cached is not None and h < cached - eng.limit + 1
+
+
 def result_of(eng, loop, case, pid, extra_sig=()):
     '''Turn an Engine run into the standard child result for property pid.'''
     out = {'evaluations': 1, 'counters': dict(eng.counters), 'sigs': [], 'violations': [], 'inconclusive': list(eng.inconclusive)}
@@ -589,6 +600,11 @@ def result_of(eng, loop, case, pid, extra_sig=()):
             out['violations'].append({'key': f'index/{kind}', 'what': f'{kind}: {detail}', 'witness': {'case': slim, 'detail': detail}})
     if eng.server_exc and eng.overlimit and 'ChainError' in eng.server_exc[1]:
         out['counters']['beyond_window_outcome_chainerror'] = 1
+        out['inconclusive'] = []
+    elif eng.server_exc and _lagging_beyond_window(eng):
+        # the block processor advanced that block while the daemon was already more than the limit ahead of it, so by the server's
+        # own rule no undo information was due; a later switch of the daemon below it is outside the statements (DESIGN 10.4)
+        out['counters']['lagging_server_beyond_window_outcome_chainerror'] = 1
         out['inconclusive'] = []
     elif eng.server_exc:
         label, exc = eng.server_exc
@@ -650,7 +666,7 @@ def index_child(case):
         out['inconclusive'].append(f'{type(e).__name__}: {e} (case {digest(case)})')
         return out
     out = result_of(eng, loop, case, case['pid'])
-    if case.get('fresh') and not out['violations'] and not out['inconclusive']:
+    if case.get('fresh') and not out['violations'] and not out['inconclusive'] and not eng.server_exc:
         try:
             fd = fresh_diff(eng, case)
         except (vloop.Budget, vloop.Quiescent) as e:
